@@ -2137,3 +2137,33 @@ mod tests {
                 clone_senders, .. }) if clone_senders.is_empty()));
     }
 }
+
+//------------ Verification hooks --------------------------------------------
+//
+// Add-only, compiled only with cargo feature `verif-hooks`. The gate handles
+// `GateCommand::Suspension { suspend: false }` but no public method of `Link`
+// ever sends it; these wrappers let an external harness exercise that handler.
+
+#[cfg(feature = "verif-hooks")]
+impl Link {
+    /// Asks the gate to lift a suspension of this link (no-op unless the
+    /// link is connected and currently suspended).
+    pub async fn verif_resume(&mut self) {
+        if self.suspended {
+            self.request_suspend(false).await
+        }
+    }
+
+    /// The link's own view of its suspension flag.
+    pub fn verif_is_suspended(&self) -> bool {
+        self.suspended
+    }
+}
+
+#[cfg(feature = "verif-hooks")]
+impl DirectLink {
+    /// See [`Link::verif_resume`].
+    pub async fn verif_resume(&mut self) {
+        self.0.verif_resume().await
+    }
+}
